@@ -286,6 +286,55 @@ def sc_fit(cx, ftype, cost, sources, constraints, fixed, limited, cycles=1, mode
             cx.eq(tag + ":total_cov_mat-at-new-point", g.total_cov_mat, f.total_cov_mat)
 
 
+def setup_symbolic():
+    from vx import stubs
+
+    stubs.install_backends(True)
+
+
+def setup_concrete():
+    from vx import stubs
+
+    stubs.install_backends(False)
+
+
+def sc_fit_results(cx, minimizer, asym, cycles):
+    """stored fit results: a fit saved after do_fit (backend stubs) reports the same results when reloaded, also after a second cycle"""
+    from props import backend as B
+
+    pb = B.build(cx, "xy", minimizer, sources=[("SA", "y", "data")], rho=0, n=3)
+    pb.assume_pd()
+    cx.assume(pb.x[0] != pb.x[1])
+    cx.assume(pb.x[0] != pb.x[2])
+    cx.assume(pb.x[1] != pb.x[2])
+    f = pb.fit
+    f.do_fit(asymmetric_parameter_errors=asym)
+    if asym:
+        f.asymmetric_parameter_errors
+    r0 = f.get_result_dict()
+    g = f
+    tag = "fit-results/%s/%s/%dx" % (minimizer, "asym" if asym else "sym", cycles)
+    for k in range(cycles):
+        g = roundtrip(cx, g, "fit")
+        r1 = g.get_result_dict()
+        lab = tag + ":cycle%d" % (k + 1)
+        cx.concrete(lab + ":did_fit", bool(r1["did_fit"]) == bool(r0["did_fit"]), info="%r vs %r" % (r1["did_fit"], r0["did_fit"]))
+        cx.concrete(lab + ":ndf", r1["ndf"] == r0["ndf"])
+        cx.eq(lab + ":parameter_values", [r1["parameter_values"][nm] for nm in pb.par_names], [r0["parameter_values"][nm] for nm in pb.par_names])
+        cx.eq(lab + ":parameter_errors", [r1["parameter_errors"][nm] for nm in pb.par_names], [r0["parameter_errors"][nm] for nm in pb.par_names])
+        cx.eq(lab + ":parameter_cov_mat", r1["parameter_cov_mat"], r0["parameter_cov_mat"])
+        cx.eq(lab + ":parameter_cor_mat", r1["parameter_cor_mat"], r0["parameter_cor_mat"])
+        cx.eq(lab + ":cost", r1["cost"], r0["cost"])
+        cx.eq(lab + ":goodness_of_fit", r1["goodness_of_fit"], r0["goodness_of_fit"])
+        a0, a1 = r0["asymmetric_parameter_errors"], r1["asymmetric_parameter_errors"]
+        cx.concrete(lab + ":asymmetric-errors-present", (a0 is None) == (a1 is None), info="original %s, reloaded %s" % ("None" if a0 is None else "present", "None" if a1 is None else "present"))
+        if a0 is not None and a1 is not None:
+            cx.eq(lab + ":asymmetric_parameter_errors", [list(a1[nm]) for nm in pb.par_names], [list(a0[nm]) for nm in pb.par_names])
+        cx.eq(lab + ":fit.parameter_errors", list(g.parameter_errors), list(f.parameter_errors))
+        if asym:
+            cx.eq(lab + ":fit.asymmetric_parameter_errors", g.asymmetric_parameter_errors, f.asymmetric_parameter_errors)
+
+
 def sc_files(cx, what):
     """concrete sub-checks on real files (not a solver verdict)"""
     import os
@@ -432,6 +481,11 @@ def scenarios(tier, seed):
     if not q:
         for ftype, cost, srcs, cons, fx, lm in fits[:6]:
             S.append(Scenario("fit-2cycles/%s/%s/%d" % (ftype, cost, len(S)), sc_fit, family="fit/%s" % ftype, params=dict(ftype=ftype, cost=cost, sources=tuple(srcs), constraints=tuple(cons), fixed=fx, limited=lm, cycles=2)))
+    for minimizer in ("scipy", "iminuit"):
+        for asym in (False, True):
+            if q and asym and minimizer == "scipy":
+                continue  # the generic root-finding path is slow to execute symbolically: thorough tier
+            S.append(Scenario("fit-results/%s/%s/2x" % (minimizer, "asym" if asym else "sym"), sc_fit_results, family="fit-results/%s" % minimizer, params=dict(minimizer=minimizer, asym=asym, cycles=2)))
     for w in ("own-from_file", "overwrite", "tiny-errors"):
         S.append(Scenario("files/%s" % w, sc_files, family="files", params=dict(what=w), concrete_only=True))
     S.append(Scenario("twin/wrong-factor", sc_twin, twin=True))
